@@ -397,16 +397,17 @@ PROPS = {
     'C10': dict(
         lean_modules=['OLP.Props.C10'], namespaces=['OLP.Props.C10'],
         required_theorems=['heap_pop_sorted', 'updates_sorted_by_pubkey', 'positive_update_rule', 'at_most_top_count', 'prefers_higher_stake',
-                           'removal_only_last_active', 'removal_only_last_active_once', 'no_duplicate_keys_partial', 'duplicate_keys_possible',
-                           'frozen_not_elected_partial', 'frozen_elected_inside_first_window', 'tm_accepts_single_block_partial',
-                           'removals_name_members', 'tm_accepts_step_partial', 'tm_accepts_all_partial', 'empties_validator_set',
-                           'duplicate_key_rejected', 'unsupported_key_type_rejected', 'converges_within_5_partial', 'unstaked_validator_stays_active'],
+                           'removal_only_last_active', 'removal_only_last_active_once', 'no_duplicate_keys', 'no_duplicate_keys_reachable',
+                           'nobody_elected_no_updates', 'deletion_rule', 'frozen_not_elected', 'tm_accepts_single_block', 'inv_after_genesis',
+                           'removals_name_members', 'tm_accepts_step', 'tm_accepts_all', 'members_keep_records', 'deletion_spares_pending_validators',
+                           'converges_within_5', 'all_below_minimum_keeps_the_set', 'unstaked_validator_is_purged_then_deleted',
+                           'unbound_genesis_key_rejected', 'non_ed25519_genesis_key_rejected'],
         run=run_c10, replay=replay_olh('elect'), level='proof',
-        assumptions=['hook inputs are decoded by the harness from the committed tree of the previous block (v_ records, purged_ heights, es__vss_ statuses, es__ssvk_ frozen records, g_ staking / evidence options through the last-update-height indirection) overlaid with the deliver state\'s pending writes, and from the simulated Tendermint (votes = the real ValidatorSet two heights back); the malicious set of a block = frozen records of the previous block + records written by this BeginBlock, emptied while height <= BlockVotesDiff (ported as `maliciousSet`)',
+        assumptions=['hook inputs are decoded by the harness from the committed tree of the previous block (v_ records, purged_ heights, es__vss_ statuses, es__ssvk_ frozen records, g_ staking options through the last-update-height indirection) overlaid with the deliver state\'s pending writes (current v_ records for the deletion test), and from the simulated Tendermint (votes = the real ValidatorSet two heights back); the malicious set of a block = frozen records of the previous block + records written by this BeginBlock',
                      'Tendermint v0.33.3 validateValidatorUpdates + ValidatorSet.UpdateWithChangeSet is the acceptance rule; its Lean port `TM.apply` is compared with the real functions on every block of every history and on random component cases covering every rejection reason; consensus params are the defaults (PubKeyTypes = [ed25519])',
                      'an address / public key enters the model as the natural number that orders like its byte string; the Tendermint address of a key is an uninterpreted function `addrOf` in the theorems (hash collisions are outside)',
-                     'the multi-block theorems are conditional on per-block side conditions the code does not establish (BlockOK: keys bound to addresses and of type ed25519, somebody elected, total power in range) and, for convergence, on every member of the pending set having a record; each is shown necessary by a proved counterexample that the engine replays on the real application (known_findings.json KF-C10-1..6)'],
-        model_limits='not in the model: fee distribution inside GetEndBlockUpdate (its division by the total power panics when every record has power 0: monitored as endblock-panics-zero-total-power), UpdateWithdrawReward and ExecuteAllegationTracker (same hook, no influence on the returned list), how stake / unstake / slashing change the records between blocks (C11: the multi-block theorems quantify over arbitrary record sequences), how validators get flagged for missed votes (C19: the malicious set is an input); governance changes of the staking options are exercised through the fork block (applyUpdate) and one scripted CONFIG_UPDATE proposal lifecycle in the valid-range option family (raised minimum self delegation, raised top count), not through generated proposals'),
+                     'what remains for Tendermint to accept every returned list (tm_accepts_all): (G) the genesis document gives every stake record the ed25519 key of its own address and every genesis validator a stake record (STAKE enforces the key binding since c35db7c, InitChain does not); (H) handler facts taken from reading the code and monitored on every block: records are keyed by address, no transaction deletes a record, no writer changes the key of a record; (M) MinSelfDelegationAmount > 0; (T) the total power stays below MaxTotalVotingPower (stakes are bounded by the supply). Convergence additionally needs somebody to be eligible (Tendermint has no empty set: with nobody to elect the application keeps the last set)'],
+        model_limits='not in the model: fee distribution inside GetEndBlockUpdate, UpdateWithdrawReward and ExecuteAllegationTracker (same hook, no influence on the returned list), how stake / unstake / slashing change the records between blocks (C11: the multi-block theorems quantify over arbitrary record sequences that satisfy the handler facts (H)), how validators get flagged for missed votes (C19: the malicious set is an input); governance changes of the staking options are exercised through the fork block (applyUpdate) and one scripted CONFIG_UPDATE proposal lifecycle in the valid-range option family, not through generated proposals'),
     'C16': dict(
         lean_modules=['OLP.Props.C16'], namespaces=['OLP.Props.C16'],
         required_theorems=['step_refines', 'run_refines', 'impl_refines_ref_partial', 'impl_refines_ref_decidable_partial', 'impl_refines_ref_from_empty_partial', 'sane_storeOK',
